@@ -35,7 +35,7 @@ complement is exactly the set of known findings F2.x (mutation before validation
 `noBasis`/`unknownQubit` after a pulse was appended, which no reachable state produces. -/
 def early (op : Op) (e : Err) : Bool :=
   match op with
-  | .declare _ _ none | .configDetMap .. | .measure .. | .phaseShift .. => true
+  | .declare .. | .configDetMap .. | .measure .. | .phaseShift .. => true
   | .add .. | .addDmm .. | .addEom .. => e != .noBasis && e != .unknownQubit
   | .target .. => !e.isSched
   | .delay .. => e == .durTooShort || e == .durTooLong
@@ -58,8 +58,8 @@ theorem markNonEmpty_st_of_err {r : Raw} {e : Err} (h : (markNonEmpty r).err = s
 /-- **A call that raises leaves the sequence exactly as it was** — for every operation
 and error class in `early`: all errors of `add` / `add_eom_pulse` / `add_dmm_detuning`
 (typestate, protocol, phase references, every limit, duration and over-long-sequence
-error), of `measure`, `phase_shift`, `config_detuning_map`, `declare_channel` without
-initial target, the validation errors of `target`, and (since the repair of F2.1/F2.2) a
+error), of `measure`, `phase_shift`, `config_detuning_map`, `declare_channel` (with an
+initial target too, since the repair of F2.9–F2.13), the validation errors of `target`, and (since the repair of F2.1/F2.2) a
 `delay` refused for its duration.  The remaining (operation, error)
 pairs are the known findings F2.x, see the counterexamples below. -/
 theorem failed_call_atomic_partial (s : SeqState) (op : Op) (e : Err)
@@ -67,7 +67,33 @@ theorem failed_call_atomic_partial (s : SeqState) (op : Op) (e : Err)
   cases op with
   | declare name chId init =>
     cases init with
-    | some qs => simp [early] at he
+    | some qs =>
+      simp only [stepRaw] at h ⊢
+      by_cases g0 : s.measured.isSome = true
+      · rw [if_pos g0]; rfl
+      · rw [if_neg g0] at h ⊢
+        cases name with
+        | dmm i k => rfl
+        | user u =>
+          simp only at h ⊢
+          by_cases g1 : (s.getChan (ChName.user u)).isSome = true
+          · rw [if_pos g1]; rfl
+          · rw [if_neg g1] at h ⊢
+            cases hc : s.dev.chans[chId]? with
+            | none => rfl
+            | some cfg =>
+              simp only [hc] at h ⊢
+              by_cases g2 : (!s.available false chId cfg) = true
+              · rw [if_pos g2]
+                repeat' split
+                all_goals rfl
+              · rw [if_neg g2] at h ⊢
+                obtain ⟨h1, h2⟩ := store_st_of_err h
+                rw [h2]
+                by_cases hl : (!cfg.isLocal) = true
+                · rw [if_pos hl] at h1; simp [done] at h1
+                · rw [if_neg hl] at h1 ⊢
+                  exact Raw.orRollback_st_of_err h1
     | none =>
       simp only [stepRaw] at h ⊢
       repeat' split
@@ -226,12 +252,23 @@ theorem delay_at_rest_atomic :
     (stepRaw sPulse (.delay 3 (.user 0) true)).err = some .durTooShort ∧
     (stepRaw sPulse (.delay 3 (.user 0) true)).st = sPulse := by decide +kernel
 
-/-- F2: `declare_channel(initial_target=[])` raises but the channel stays declared. -/
-theorem declare_bad_target_not_atomic :
+/-- F2.9, repaired: `declare_channel(initial_target=[])` raises and nothing stays declared (the
+channel used to stay behind: the declaration is rolled back when the target is refused). -/
+theorem declare_bad_target_atomic :
     let dev : Device := { chans := [{ exCfg with isLocal := true }], dmms := [], reusable := false,
                           maxSeqDur := none }
     (stepRaw (SeqState.init dev 2) (.declare (.user 0) 0 (some []))).err = some .emptyTargets ∧
-    ((stepRaw (SeqState.init dev 2) (.declare (.user 0) 0 (some []))).st.chans.length = 1) := by
+    ((stepRaw (SeqState.init dev 2) (.declare (.user 0) 0 (some []))).st = SeqState.init dev 2) := by
+  decide +kernel
+
+/-- F2.3 (still open): `delay(d, at_rest=True)` refused because the *sequence* becomes too long
+keeps the wait for the fall time. -/
+theorem delay_over_max_seq_not_atomic :
+    let dev : Device := { exDev with maxSeqDur := some 400 }
+    let s := run (SeqState.init dev 1)
+      [.declare (.user 0) 0 none, .add { dur := 100, fallStd := 240, ref := 1 } (.user 0) (some .minDelay)]
+    (stepRaw s (.delay 100 (.user 0) true)).err = some .overMaxSeq ∧
+    (stepRaw s (.delay 100 (.user 0) true)).st ≠ s := by
   decide +kernel
 
 /-! ### Non-vacuity -/
